@@ -306,7 +306,7 @@ def validate(ctx, module, trace, label, key_fields=None, group=1, jopts="", samp
     """TLC trace validation. `group`: events per case are contiguous; chunks are cut only at
     lines whose 'ev' is 'Begin' when group='begin'."""
     d = os.path.dirname(trace)
-    lines = open(trace).read().splitlines()
+    lines = [x for x in open(trace).read().split("\n") if x]
     if not lines:
         raise ToolError("empty trace " + trace)
     # cut into chunks
